@@ -275,6 +275,15 @@ def build_router(case: dict, trace: Trace, loop: vclock.VLoop, fn_tag: str = "",
                 e.kwargs = {"x": x, "d": d}
                 return await perform(e, m)
             router.actor(dep, **kw)
+        elif shape == "dep2":
+            async def outer(inner: Annotated[str, Depends(provider)]) -> str:
+                return "outer(" + str(inner) + ")"
+
+            async def dep2(m: MessageDependency, d: Annotated[str, Depends(outer)], x: int = 0) -> Any:
+                e = begin(m, name)
+                e.kwargs = {"x": x, "d": d}
+                return await perform(e, m)
+            router.actor(dep2, **kw)
         elif shape == "sync":
             def sync_actor(x: int = 0, id_: str = "") -> Any:
                 # runs in a worker thread; only return / raise outcomes
